@@ -162,7 +162,7 @@ func abbrev(p string) string {
 		return p
 	}
 	h := sha1.Sum([]byte(p))
-	return fmt.Sprintf("%s..#%d#%x", p[:32], len(p), h[:8])
+	return fmt.Sprintf("%x..#%d#%x", p[:16], len(p), h[:8])
 }
 
 func words(ch string) []string {
@@ -607,7 +607,15 @@ func replayWith(nb int, surveyed, standalone bool, mode string, licVer int, stor
 		if a.N == "pub" {
 			// make every published payload distinguishable; the logged request carries the payload actually sent
 			a.P = fmt.Sprintf("%s-%d", a.P, w.msgID)
-			ev["p"] = a.P
+			if w.msgID%6 == 5 {
+				// every sixth payload is binary and a few kilobytes long: all byte values, zero bytes, invalid UTF-8
+				bin := make([]byte, 2000+int(w.msgID)*37%3000)
+				for i := range bin {
+					bin[i] = byte(i*7 + int(w.msgID))
+				}
+				a.P = a.P + string(bin)
+			}
+			ev["p"] = abbrev(a.P)
 		}
 		isSub := ""
 		if StepSink != nil {
